@@ -34,6 +34,9 @@ def reset_process_state(tape, label='global_rng'):
     u = _Uuid()
     em.uuid = u
     eu.uuid = u
+    import elfi.model.tools as et
+    et.subprocess = sp.FAKE_SUBPROCESS       # external operations answer in-process
+    del sp.EXT_LOG[:]
     np.random.seed(tape.int(label, 0, 2 ** 20))
     elfi.new_model()
     bk.preload_client_modules(elfi)
@@ -141,7 +144,11 @@ class SamplerRun:
         orig_cancel = s.batches.cancel_pending
 
         def update(batch, batch_index):
-            self.consumed.append((self.call_no, batch_index, batch))
+            # the oracle keeps its OWN copy of what was consumed: the batch object itself is shared
+            # with the sampler (and the pool) and must not be trusted to stay as it arrived
+            snap = {k: (np.array(v, copy=True) if isinstance(v, np.ndarray) else v)
+                    for k, v in batch.items()}
+            self.consumed.append((self.call_no, batch_index, snap))
             self.rounds.append(s.state.get('round'))
             own = mon.result_owner.get(id(batch))
             if own is None:
